@@ -189,7 +189,7 @@ SELFTESTS = [selftest_tape, selftest_spines]
 def obligations(tier: str):
     obls = []
     dmax = 6 if tier == "quick" else 9
-    t = 300 if tier == "quick" else 3000
+    t = 300 if tier == "quick" else 1200
     for mode in ("det", "nondet"):
         for d in range(1, dmax + 1):
             for kind in ("array", "object", "mixed"):
